@@ -1,5 +1,6 @@
 """What MANIFEST.json claims (bin/mkmanifest turns this into MANIFEST.json)."""
 HOOK_COMMITS = ["8be261b"]
+FIX_COMMITS = {"D1": "d2df98b", "D8": "5d5605d", "D5": "c578a42"}
 NOTES = ("Machine-checked proof in Coq 8.16 of a hand-written executable model + per-run correspondence "
          "check of the extracted model against /repo's working tree (see DESIGN.md).")
 COMMON_NOTE = ("Trusted: Coq kernel; hand-written Gallina model tied to /repo only by the per-run differential "
@@ -14,6 +15,14 @@ CLAIMED = {
          "technique": "Coq proof (lia) of interval-algebra specs for the CharSet model + exhaustive/random model-vs-crate correspondence",
          "text": "Every CharSet operation of the model is proved, for all intervals and characters, to state the set-theoretic fact (20 theorems, no axioms); the model is compared with the crate on all intervals over 10-15 critical points (all ordered pairs) and random cases on every run. Unit tests sample a handful of intervals; the theorems cover all of them and the correspondence transports that to the code.",
          "note": COMMON_NOTE + "CharSet start/end are observed through pick()/size(). Sets are built valid (start<=end<=MAX_CHAR), as the type requires."},
+ "C09": {"engine": "strconv", "design_ref": "DESIGN.md section 5 / C09; defect D5 in section 4",
+         "technique": "Coq proof (list induction, lia) that the model of str_lt/str_le/str_to_int/str_from_int/str_to_code/str_from_code/str_is_digit meets an inductive lexicographic order and Horner decimal-value specification + model-vs-crate correspondence in a debug AND a release build",
+         "text": "30 theorems, no axioms, for all strings and all integers: str_lt/str_le never panic and are the strict/non-strict inductive lexicographic order (irreflexive, transitive, total, antisymmetric, le = lt or equal, lt a b = not le b a, every prefix is <=); str_to_int is the decimal value of a non-empty all-digit string when it is <= 2^31-1, the documented panic exactly when it is larger, and -1 otherwise, hence never a wrong number; str_from_int is the unique decimal numeral without leading zeros; to_int(from_int n) = n for 0 <= n <= 2^31-1, to_code(from_code x) = x for 0 <= x <= 0x2FFFF, from_code is empty outside that range, is_digit holds exactly for one character '0'..'9'. The model mirrors the code after the repair of defect D5 and has no build-profile argument; every run compares it with the crate built with overflow checks (debug) and without (release) on numerals around 2^31-1, 2^31, 2^32, 10-20 digits, leading zeros, late non-digits, all pairs of strings <= 3 over 3 code points, critical and random i32. Unit tests try three to_int inputs (none near 2^31) and about a dozen order pairs, in one profile.",
+         "note": COMMON_NOTE + "i32::to_string is modelled by an own decimal printer (proved to produce the unique numeral) and tied to the crate by the correspondence check only. Strings reach the crate through SmtString::from(&[u32]). The build-profile quantifier is covered by running both profiles, not by a theorem about rustc."},
+ "C15": {"engine": "looprange", "design_ref": "DESIGN.md section 5 / C15",
+         "technique": "Coq proof (lia + N.mul monotonicity / div_mod lemmas, no nia) of set-level specs for the LoopRange model + exhaustive/frontier/random model-vs-crate correspondence in debug and release",
+         "text": "For all valid ranges (finite and infinite) and all scalars the model's operations are proved to be the arithmetic of the denoted sets of naturals (34 theorems, no axioms): contains/includes are membership/inclusion; add is exactly the sum set; scale(k) exactly the k-fold sum set; shift the set of truncated predecessors; mul contains every product and is the least range that does; add/scale/mul return None (= Rust panic) exactly when that set/hull has no range with u32 bounds; right_mul_is_exact is true iff the union over y in s of the y-fold sums of r equals r.mul(s) (equivalently: iff that union is an interval at all), and it panics exactly when start(s)*(end(r)-start(r)) overflows u32. The extracted model is compared with the crate on every public LoopRange method over all 65 ranges with bounds <= 9 or infinite (all 4225 ordered pairs, all k <= 9), all ranges over the overflow frontier {0,1,2,2^16-1,2^16,2^16+1,2^31,2^32-1} (all ordered pairs, value vs PANIC) and 4000 random cases, in debug and release, on every run.",
+         "note": COMMON_NOTE + "Ranges are built valid (lo<=hi), as LoopRange::finite debug-asserts; results are read from the derived Debug form. Display is not modelled. right_mul_is_exact can panic although the answer exists and r.mul(s) is representable (r=[0,65536], s=[65536,inf)); model and crate agree on that panic."},
 }
 NOT_CLAIMED = {}
 for e in ENGINES:
